@@ -7,9 +7,11 @@ import StraxModel.Lemmas.MultiRun
   that produced it; a failing run raises its own error or, with `ignore_errors`, is left out
   without disturbing the others.
   Part 2 (plugin registry shared by the workers of one context): the code as it stands has
-  two-thread interleavings that crash (open defect D8, `registry_race_counterexample`); if the
-  register / resolve / cleanup block of every worker is made atomic (a lock), every interleaving
-  is safe (`registry_safe_serialized`).
+  two-thread interleavings that crash (open defects D8 / D8b, `registry_race_counterexample`,
+  `cache_race_counterexample`): for the current code the clause "never corrupts or crashes" is
+  REFUTED, not proved.  `readonly_workers_safe_partial` is the part that does hold for the code as
+  it is (workers that only read the shared state — single target, warm cache).
+  `registry_safe_serialized*` are about a repair that is not applied (a lock).
 
   Only property theorems and non-vacuity examples live here; the work is in Lemmas/MultiRun.lean.
 -/
@@ -17,6 +19,16 @@ namespace Strax.C15
 open Strax Strax.MultiRun
 
 /-! ## 1. `multi_run` -/
+
+/-! **Scope of part 1.**  `results : Nat → Except Err Rows` makes the outcome of loading one run a
+*function of its run id*: what a worker returns does not depend on what the other workers do.  Under
+that premise "identical to sequential single-run calls for every interleaving of the workers" is a
+statement about the bookkeeping of `multi_run` (submission window, handling order, run-id column,
+`ignore_errors`, final sort), and that is what is proved here — for every completion order, worker
+count and run list.  The premise itself is what the open defects D8 / D8b refute for several
+same-kind targets (and for a cold plugin cache) on a shared context: there a worker's outcome does
+depend on the interleaving (part 2, `registry_race_counterexample`).  The check states this
+premise in its ASSUMPTIONS and validates it on the real code only up to those two findings. -/
 
 /-- hypothesis of the order-independence law: nothing can make `multi_run` raise -/
 def NoRaise (runs : List Nat) (results : Nat → Except Err Rows) (ignoreErrors : Bool) : Prop :=
@@ -130,7 +142,7 @@ theorem zero_workers_rejected (runs order : List Nat) (results : Nat → Except 
 cache.  One preemption suffices for two of the failure kinds seen on the real code, two for the
 third:
 * worker 0 registers its temp plugin, worker 1 runs its whole `get_iter` (re-registers the name,
-  resolves, deletes every `_temp*` key), worker 0 resumes: `KeyError` when it resolves the name;
+  resolves, deletes every `_temp*` key), worker 0 resumes: `KeyError` when it subscripts the name;
 * worker 0 is inside `_context_hash` (iterator over 4 keys) while worker 1 does the same and
   removes the temp key: `RuntimeError: dictionary changed size during iteration`;
 * worker 0 has tested `_fixed_plugin_cache is None` (it was not), worker 1 registers its own class
@@ -138,31 +150,63 @@ third:
   `TypeError`. -/
 theorem registry_race_counterexample :
     ((Sys.init 3 true [workerProg 0, workerProg 0]).run
-        (List.replicate 6 0 ++ List.replicate 24 1 ++ List.replicate 8 0)).failures = [(0, .keyError)] ∧
+        (List.replicate 7 0 ++ List.replicate 32 1 ++ List.replicate 10 0)).failures = [(0, .keyError)] ∧
     ((Sys.init 3 true [workerProg 0, workerProg 0]).run
-        (List.replicate 7 0 ++ List.replicate 24 1 ++ [0])).failures = [(0, .runtimeError)] ∧
+        (List.replicate 8 0 ++ List.replicate 32 1 ++ [0])).failures = [(0, .runtimeError)] ∧
     ((Sys.init 3 true [workerProg 0, workerProg 0]).run
-        (List.replicate 13 0 ++ List.replicate 7 1 ++ [0])).failures = [(0, .typeError)] := by
+        (List.replicate 15 0 ++ List.replicate 8 1 ++ [0])).failures = [(0, .typeError)] := by
   decide +kernel
 
 /-- … while the same two workers run one after the other are fine and leave the registry as it was -/
 example : ((Sys.init 3 true [workerProg 0, workerProg 0]).run
-      (List.replicate 24 0 ++ List.replicate 24 1)).allDone = true ∧
+      (List.replicate 26 0 ++ List.replicate 26 1)).allDone = true ∧
     ((Sys.init 3 true [workerProg 0, workerProg 0]).run
-      (List.replicate 24 0 ++ List.replicate 24 1)).shared.reg = baseRegistry 3 := by decide +kernel
+      (List.replicate 26 0 ++ List.replicate 26 1)).shared.reg = baseRegistry 3 := by decide +kernel
 
 /-- the same race on the inner plugin-cache dict (open defect D8b): one worker iterates the dict
 (`__get_requested_plugins_from_cache`), another inserts a plugin (`_plugins_to_cache`) -/
 theorem cache_race_counterexample :
-    ((Sys.init 1 true [[.contextHash], [.registerTemp 0]]).run [0, 0, 1, 0]).failures
+    ((Sys.init 1 true [[.contextHash], [.registerTemp 0]]).run [0, 0, 1, 1, 0]).failures
       = [(0, .runtimeError)] := by
   decide +kernel
 
-/-- The lock-style fix.  If every worker's block `[registerTemp; resolve; deleteAllTemp; contextHash]`
-runs atomically, then for ALL numbers of registered plugins, ALL numbers of workers, ALL temp
-names and ALL schedules of the blocks: no worker fails (in particular every resolve succeeds),
-every worker that was scheduled has finished, and the registry and the cache flag are what they
-were initially. -/
+/-- The part of "concurrent use of one context never crashes on its plugin registry and caches" that
+holds for the code as it is — PARTIAL: it covers only workers that do not write the shared state
+(`Instr.readOnly`: registry iterations, tests / uses of the cache attribute, iteration of and look-ups
+in the existing inner cache dicts, the clean-up loop on a registry without temp plugins), which is
+what a worker with a SINGLE target on a WARM plugin cache does (checked on every such real worker by
+`registry/program`, program-shape).  For any number of plugins, inner cache dicts, workers and EVERY
+schedule of their atomic steps: nobody fails and the shared state is untouched.  Excluded by the
+hypothesis: several same-kind targets (`registerTemp` — open defect D8) and a cold cache
+(`cacheInit` / `innerSet` — open defect D8b); the full statement is false there
+(`registry_race_counterexample`, `cache_race_counterexample`). -/
+theorem readonly_workers_safe_partial (nPlugins : Nat) (inner : List (List Key)) (progs : List (List Instr))
+    (schedule : List Nat) (h : ∀ p ∈ progs, ∀ i ∈ p, i.readOnly inner = true) :
+    ((Sys.initWith nPlugins true inner progs).run schedule).failures = [] ∧
+    ((Sys.initWith nPlugins true inner progs).run schedule).shared =
+      (Sys.initWith nPlugins true inner progs).shared :=
+  readonly_safe nPlugins inner progs schedule h
+
+-- non-vacuity: two single-target workers on a warm cache (events as read off the real code), interleaved
+example : (∀ p ∈ [[Instr.contextHash, .cacheTest, .contextHash, .cacheUse, .innerIter 0, .innerGet 0 (.plugin 1), .deleteAllTemp],
+                   [Instr.contextHash, .cacheUse, .innerIter 0, .deleteAllTemp, .contextHash]],
+            ∀ i ∈ p, i.readOnly [[.plugin 0, .plugin 1]] = true) := by decide
+example : ((Sys.initWith 3 true [[.plugin 0, .plugin 1]]
+      [[.contextHash, .cacheTest, .contextHash, .cacheUse, .innerIter 0, .innerGet 0 (.plugin 1), .deleteAllTemp],
+       [.contextHash, .cacheUse, .innerIter 0, .deleteAllTemp, .contextHash]]).run
+      (List.replicate 20 [0, 1]).flatten).allDone = true := by
+  decide +kernel
+
+/-- **About a repair that is NOT applied to /repo** (the code as it stands is described by
+`registry_race_counterexample`; this theorem contributes nothing to "never corrupts or crashes" for
+the current code and must not be read as coverage of that clause).  It records what a lock buys:
+if every worker's block `lockedProg k = [registerTemp; resolve; deleteAllTemp; contextHash]` runs
+atomically (`Sys.runBlocks`: one block = one step), then for ALL numbers of registered plugins, ALL
+numbers of workers, ALL temp names and ALL orders of the blocks no worker fails (in particular
+every resolve succeeds), every scheduled worker has finished, and the registry and the cache flag
+are what they were initially.  It says nothing about readers that do not take the lock
+(single-target workers, `key_for` during processing): those need the snapshot iteration of the
+suggested patch, which is validated on a scratch copy by the check, not proved. -/
 theorem registry_safe_serialized (nPlugins : Nat) (cacheSet : Bool) (temps : List Nat) (schedule : List Nat) :
     let sys := (Sys.init nPlugins cacheSet (temps.map lockedProg)).runBlocks schedule
     sys.failures = [] ∧
@@ -171,7 +215,7 @@ theorem registry_safe_serialized (nPlugins : Nat) (cacheSet : Bool) (temps : Lis
     (∀ i ∈ schedule, ∀ t : Thread, sys.threads[i]? = some t → t.done = true) :=
   runBlocks_safe nPlugins cacheSet temps schedule
 
-/-- every worker scheduled at least once ⇒ all of them are done -/
+/-- (same hypothetical repair) every worker scheduled at least once ⇒ all of them are done -/
 theorem registry_safe_serialized_all_done (nPlugins : Nat) (cacheSet : Bool) (temps : List Nat)
     (schedule : List Nat) (hall : ∀ i, i < temps.length → i ∈ schedule) :
     ((Sys.init nPlugins cacheSet (temps.map lockedProg)).runBlocks schedule).allDone = true :=
